@@ -24,6 +24,7 @@ BOUND = ("boundary-free hat basis on [0,1]^d; (A) reuse on/off: real SpatiallyAd
          "after every evaluation round; (B) size paths: uniform grids with levels 1..4 (N<=400) and bisection-tree grids with N in "
          "[1,330] incl. N in {195,196,200,210,216}: the real functions with the constant 200 replaced by 0 resp. 10**9 and the "
          "unmodified functions, on the same grid, data and surpluses, 8..30 evaluation points incl. grid points, grid lines, domain boundary")
+BOUND += "; fault / magnitude additions: a quarter of the small histories: the user's global estimator raises once in evaluation round 2 or 3 and the run is resumed (same fault with reuse on and off)"
 RULE = BOUND + "; one case = one (history, data, configuration) pair of runs, or one (grid, data, surpluses) for the size paths; all cases non-trivial"
 BUDGET = {"quick": 45.0, "thorough": 840.0}
 
